@@ -229,13 +229,13 @@ var commonAssumptions = []string{
 }
 
 var histPlans = map[string]*histPlan{
-	"C01": {level: "exploration", quickRuns: 4000, thorRuns: 300000, chunk: 50, quickBudget: 60 * time.Second, thorBudget: 20 * time.Minute,
+	"C01": {level: "exploration", quickRuns: 12000, thorRuns: 300000, chunk: 50, quickBudget: 60 * time.Second, thorBudget: 20 * time.Minute,
 		builds: []string{"default"},
 		required: []string{"oracle/C01", "probe/C01/n=0", "probe/C01/n>=3", "probe/C01/input_with_torsion", "probe/C01/Point.MultiScalarMult/recv=used", "probe/C01/Point.MultiScalarMult/recv=zero", "probe/C01/Point.MultiScalarMult/recv=aliased",
 			"probe/C01/Point.VarTimeMultiScalarMult/recv=used", "probe/C01/Point.ScalarMult/recv=aliased", "probe/C01/Point.ScalarBaseMult/recv=used",
 			"probe/C01/Point.VarTimeDoubleScalarBaseMult/recv=aliased"},
 		rule: "one evaluation = one seeded history (8-45 steps over a pool of reused, aliasable Point/Scalar/Element slots, >= 40% scalar-multiplication steps, per-run swarm configuration); non-trivial = at least one scalar-multiplication step whose result was compared with the big.Int reference sum; distinct = distinct value-level event-log hash of the whole run"},
-	"C05": {level: "exploration", quickRuns: 16000, thorRuns: 2000000, chunk: 100, quickBudget: 60 * time.Second, thorBudget: 20 * time.Minute,
+	"C05": {level: "exploration", quickRuns: 60000, thorRuns: 2000000, chunk: 100, quickBudget: 60 * time.Second, thorBudget: 20 * time.Minute,
 		builds:   []string{"default"},
 		required: []string{"oracle/C05", "probe/C05/small_order_axis_point"},
 		rule:     "one evaluation = one seeded history of point operations, imports with scaled coordinates and decodes (incl. non-canonical encodings); after every step every changed (30% of runs: every) initialised point slot is encoded and compared with the canonical encoding computed from its own raw coordinates, then decoded again; non-trivial = at least one slot encoding checked; distinct = distinct value-level event-log hash"},
@@ -243,27 +243,27 @@ var histPlans = map[string]*histPlan{
 		builds:   []string{"default", "purego"},
 		required: []string{"oracle/C09", "probe/C09/invert_zero"},
 		rule:     "one evaluation = one seeded history over 8-16 field.Element slots (all 20 Element operations; half of the runs biased to carry-free chains that maximise limbs), executed under the default (assembly) and the purego build; each of the nine C09 operations is compared with GF(p) arithmetic on the pre-state values, the 2^52 limb bound is checked on every written element; non-trivial = at least one of the nine operations checked; distinct = distinct value-level event-log hash"},
-	"C11": {level: "fault_enumeration", quickRuns: 800, thorRuns: 250000, chunk: 5, quickBudget: 60 * time.Second, thorBudget: 20 * time.Minute,
+	"C11": {level: "fault_enumeration", quickRuns: 2400, thorRuns: 250000, chunk: 5, quickBudget: 60 * time.Second, thorBudget: 20 * time.Minute,
 		builds: []string{"default", "purego"}, // the portable multiplication/squaring have their own read/write order
 		required: []string{"oracle/C11diff", "oracle/C11diff/Scalar.MultiplyAdd", "oracle/C11diff/Point.MultiScalarMult", "oracle/C11diff/Point.VarTimeMultiScalarMult",
 			"oracle/C11diff/Element.Select", "oracle/C11diff/Point.SetExtendedCoordinates", "oracle/C11diff/Point.Add", "oracle/C11diff/Element.Swap"},
 		rule: "one evaluation = one run: a seeded history prefix (alias pressure 0.6) followed by the exhaustive enumeration of every exported method x every set partition of {receiver} U {same-typed pointer arguments} (plus multi-scalar shapes: receiver at each index, repeated points/scalars, n=1..4) on operand values drawn from the evolved world; every call is checked by the bit-for-bit frame invariant, every aliased call is re-executed on private copies and compared as values; non-trivial = at least one aliased-vs-distinct comparison; distinct = distinct value-level event-log hash"},
-	"C12": {level: "exploration", quickRuns: 24000, thorRuns: 5000000, chunk: 100, quickBudget: 60 * time.Second, thorBudget: 20 * time.Minute,
+	"C12": {level: "exploration", quickRuns: 100000, thorRuns: 5000000, chunk: 100, quickBudget: 60 * time.Second, thorBudget: 20 * time.Minute,
 		builds: []string{"default"},
 		required: []string{"oracle/C12", "fault/misuse/uninit", "fault/reject/sem/Point.SetExtendedCoordinates", "fault/reject/sem/Point.SetBytes",
 			"probe/zero_value_receiver", "observed/setter_ok/Point.SetExtendedCoordinates"},
 		rule: "one evaluation = one seeded history with every operation enabled and all fault kinds on (rejected setters, misuse panics, adversarial coordinate imports incl. zero quadruples in several limb forms, zero-value receivers); after every step every changed Point slot must be the guarded zero value (only via var/Set) or satisfy Z != 0, the curve equation and XY = ZT in big.Int; non-trivial = at least one changed point slot validated; distinct = distinct value-level event-log hash"},
-	"C14": {level: "fault_enumeration", quickRuns: 16000, thorRuns: 3000000, chunk: 100, quickBudget: 45 * time.Second, thorBudget: 15 * time.Minute,
+	"C14": {level: "fault_enumeration", quickRuns: 60000, thorRuns: 3000000, chunk: 100, quickBudget: 45 * time.Second, thorBudget: 15 * time.Minute,
 		builds: []string{"default"},
 		required: []string{"observed/setter_error/Point.SetBytes", "observed/setter_error/Point.SetExtendedCoordinates", "observed/setter_error/Scalar.SetCanonicalBytes",
 			"observed/setter_error/Scalar.SetUniformBytes", "observed/setter_error/Scalar.SetBytesWithClamping", "observed/setter_error/Element.SetBytes", "observed/setter_error/Element.SetWideBytes",
 			"fault/reject/len/Point.SetBytes", "fault/reject/sem/Point.SetBytes", "fault/reject/sem/Scalar.SetCanonicalBytes", "fault/reject/sem/Point.SetExtendedCoordinates"},
 		rule: "one evaluation = one run: seeded history prefix, then (every second run) the enumeration seven fallible setters x {every wrong-length class, nil, semantically invalid input of each sub-kind} x receiver state {zero value, used}; remaining runs inject the same faults at random points of general histories; oracle is conditional on the error actually returned: nil result, receiver and all other slots bit-identical, input unchanged / on success the receiver is returned; non-trivial = at least one fallible setter call checked; distinct = distinct value-level event-log hash"},
-	"C15": {level: "fault_enumeration", quickRuns: 8000, thorRuns: 2000000, chunk: 50, quickBudget: 45 * time.Second, thorBudget: 15 * time.Minute,
+	"C15": {level: "fault_enumeration", quickRuns: 12000, thorRuns: 2000000, chunk: 50, quickBudget: 45 * time.Second, thorBudget: 15 * time.Minute,
 		builds:   []string{"default"},
 		required: []string{"fault/misuse/uninit", "fault/misuse/len", "observed/misuse_panic", "probe/zero_value_receiver"},
 		rule:     "one evaluation = one run: seeded history prefix, then (every second run) the enumeration of a zero-value Point at every Point-typed input position of every operation (every non-empty subset of positions for fixed-arity operations, every index for n=1..5 multi-scalar calls, receiver aliased to the bad operand in 30%), all unequal (len(scalars), len(points)) pairs <= 4, and the converse (zero-value pure receiver with valid inputs must not panic); non-trivial = at least one misuse or zero-receiver call checked; distinct = distinct value-level event-log hash"},
-	"C19": {level: "exploration", quickRuns: 12000, thorRuns: 1500000, chunk: 100, quickBudget: 60 * time.Second, thorBudget: 20 * time.Minute,
+	"C19": {level: "exploration", quickRuns: 36000, thorRuns: 1500000, chunk: 100, quickBudget: 60 * time.Second, thorBudget: 20 * time.Minute,
 		builds: []string{"default"}, instrumented: true,
 		required: []string{"fault/scribble/bytes", "fault/scribble/coords", "fault/scribble/ctor", "oracle/C19/probe", "oracle/C19/anchors", "oracle/C19/pkgstate"},
 		rule:     "one evaluation = one seeded history in which every value handed back by the library (Bytes results, exported coordinates, constructor results) is kept in a ledger and later overwritten (raw memory and public mutators) at arbitrary points, and earlier calls are re-issued on bit-copies of their recorded operands; checked: caller slots, other returned values and every package-level variable of the library bit-identical across each mutation, returned values never overlap each other / caller slots, re-issued calls give identical values, constructors keep returning identity/base/zero; non-trivial = at least one ledger/mutation/probe check; distinct = distinct value-level event-log hash"},
